@@ -80,6 +80,26 @@ pub fn run_line(line: &str) -> String {
             let out = ruzstd::encoding::compress_to_vec(src, level);
             format!("ok {}", hex(&out))
         }
+        // renc_multi <level 0|1> <frag> <data-hex>... : several frames through ONE reused FrameCompressor
+        "renc_multi" => {
+            let level = if w[1] == "0" {
+                ruzstd::encoding::CompressionLevel::Uncompressed
+            } else {
+                ruzstd::encoding::CompressionLevel::Fastest
+            };
+            let frag: usize = w[2].parse().unwrap();
+            let mut comp = ruzstd::encoding::FrameCompressor::new(level);
+            let mut outs = Vec::new();
+            for h in &w[3..] {
+                let src = crate::prog::Src::new(unhex(h), frag);
+                comp.set_source(src);
+                comp.set_drain(Vec::new());
+                comp.compress();
+                let out: Vec<u8> = comp.take_drain().unwrap();
+                outs.push(hex(&out));
+            }
+            format!("ok {}", outs.join(" "))
+        }
         other => format!("unknown {}", other),
     }
 }
